@@ -5,7 +5,7 @@ Table of claimed checks; bin/mkmanifest turns it into MANIFEST.json.
 CLAIMED = {
 
  'C01': {
-  'engine'    : 'envdfs',
+  'engine'    : 'schedworld',
   'category'  : 'model_checking',
   'design_ref': 'DESIGN.md 4 (C01), 3.2 variant B\', A.1',
   'technique' : 'stateless exploration of the real scheduler loop under all '
@@ -32,7 +32,7 @@ CLAIMED = {
  },
 
  'C02': {
-  'engine'    : 'envdfs',
+  'engine'    : 'schedworld',
   'category'  : 'model_checking',
   'design_ref': 'DESIGN.md 4 (C02)',
   'technique' : 'same exploration as C01 (real scheduler loop, all '
@@ -52,7 +52,7 @@ CLAIMED = {
  },
 
  'C03': {
-  'engine'    : 'envdfs',
+  'engine'    : 'schedworld',
   'category'  : 'model_checking',
   'design_ref': 'DESIGN.md 4 (C03)',
   'technique' : 'same exploration as C01 with a release oracle at every loop '
@@ -75,7 +75,7 @@ CLAIMED = {
  },
 
  'C04': {
-  'engine'    : 'envdfs',
+  'engine'    : 'schedworld',
   'category'  : 'model_checking',
   'design_ref': 'DESIGN.md 4 (C04), A.2',
   'technique' : 'stateless exploration of the real scheduler loop under all '
